@@ -27,7 +27,19 @@ func wrapLIA(x string, w int, signed bool) string {
 }
 
 // wrap1 corrects a value known to be at most one modulus outside the range.
+// wrapInQuant: under a quantifier no definitions can be introduced, so the
+// operand would be copied five times per operation (exponential in the depth
+// of an arithmetic expression); a preamble function keeps the text linear.
+var wrapInQuant func() bool
+
 func wrap1(x string, w int, signed bool) string {
+	if wrapInQuant != nil && wrapInQuant() && len(x) > 60 {
+		sg := "u"
+		if signed {
+			sg = "s"
+		}
+		return sx(fmt.Sprintf("wrap1_%s%d", sg, w), x)
+	}
 	lo, hi := intRange(w, signed)
 	m := pow2(w).String()
 	return sx("ite", sx(">", x, intLit(hi)), sx("-", x, m), sx("ite", sx("<", x, intLit(lo)), sx("+", x, m), x))
